@@ -1011,6 +1011,14 @@ def check_C11(work, args):
     ck.cov = {
         'obligations': nthm + 2, 'discharged': (nthm if not proof_broken(st) else 0) + (0 if tprobs else 1) + (0 if kbdiffs else 1),
         'kb_backend_model': {'grammars_compared_program_equal': kbn - len(kbdiffs), 'differ': len(kbdiffs), 'skipped_too_large_or_unresolved': kbskip},
+        'theorem_hypotheses_evaluated': {
+            'prog_scoped(compile g) true (C11_scoped_program_never_stuck applies: no unbound variable, missing rule function, wrong rec arity or escaping break/return on any input)':
+                len([1 for it in acc if it.get('kb_scoped') is True]),
+            'prog_scoped false': len([1 for it in acc if it.get('kb_scoped') is False]),
+            'prog_scoped false although rustc accepts the parser (the check is stricter than rustc there; theorem not applicable)':
+                len([1 for it in acc if it.get('kb_scoped') is False and 'pb' in it and it['pb'].rustc_ok]),
+            'prog_scoped true although rustc rejects the parser (a type/lifetime error outside the model)':
+                len([1 for it in acc if it.get('kb_scoped') is True and 'pb' in it and not it['pb'].rustc_ok])},
         'checker_cmd': 'make -C coq ; coqc -Q . LV Props/C11.v (Print Assumptions parsed) ; source audit grep',
         'trusted_base': lv.TRUSTED_BASE + ['rustc decides "compiles"; the driver implements every callback of the generated trait'],
         'theorems': st['theorems'],
